@@ -584,12 +584,18 @@ var_opt_sketch<T, A> var_opt_sketch<T, A>::deserialize(std::istream& is, const S
   const auto h = read<uint32_t>(is);
   const auto r = read<uint32_t>(is);
 
+  // a failed read leaves the values indeterminate: check before they size the arrays
+  if (!is.good())
+    throw std::runtime_error("error reading from std::istream");
+
   const uint32_t array_size = validate_and_get_target_size(preamble_longs, k, n, h, r, rf);
 
   // current_items_alloc_ is set but validate R region weight (4th prelong), if needed, before allocating
   double total_wt_r = 0.0;
   if (preamble_longs == PREAMBLE_LONGS_FULL) { 
     total_wt_r = read<double>(is);
+    if (!is.good())
+      throw std::runtime_error("error reading from std::istream");
     if (std::isnan(total_wt_r) || r == 0 || total_wt_r <= 0.0) {
       throw std::invalid_argument("Possible corruption: deserializing in full mode but r = 0 or invalid R weight. "
        "Found r = " + std::to_string(r) + ", R region weight = " + std::to_string(total_wt_r));
@@ -601,6 +607,8 @@ var_opt_sketch<T, A> var_opt_sketch<T, A>::deserialize(std::istream& is, const S
       weights_deleter(array_size, allocator));
   double* wts = weights.get(); // to avoid lots of .get() calls -- do not delete
   read(is, wts, h * sizeof(double));
+  if (!is.good())
+    throw std::runtime_error("error reading from std::istream");
   for (size_t i = 0; i < h; ++i) {
     if (!(wts[i] > 0.0)) {
       throw std::invalid_argument("Possible corruption: Non-positive weight when deserializing: " + std::to_string(wts[i]));
